@@ -1041,7 +1041,30 @@ def replay(case):
     return out
 
 
+def minimise(rec):
+    """The units are sub-searches by first operation, so the case kept for a signature is the first one of
+    whichever unit was merged first, not necessarily the shortest.  Try the suffixes of its operation list
+    (shortest first) from the seed and keep the first that gives the same signature."""
+    for sig, e in rec.viol.items():
+        case = e.get('case') or {}
+        ops = case.get('ops') or []
+        if len(ops) < 2 or case.get('build'):
+            continue
+        for k in range(1, len(ops)):
+            cand = {'seed': case['seed'], 'ops': ops[-k:]}
+            try:
+                with core.timelimit(TIME_OP):
+                    got = replay(cand)
+            except Exception:
+                continue
+            if any(s2 == sig for s2, w in got):
+                cand['minimised_from'] = ops
+                e['case'] = cand
+                break
+
+
 def finalize(rec, tier):
+    minimise(rec)
     return {'seeds': BOUNDS[tier]['seeds'], 'depth_per_seed': BOUNDS[tier]['depth'],
             'operations_executed': dict((k, v) for k, v in rec.outcomes.items()
                                         if k not in ('violating-transition', 'finding-repaired-and-continued'))}
